@@ -34,7 +34,11 @@ func dynProfile(preserve, bluegreen bool) Profile {
 		{"ssl-redirect", []string{"false"}},
 	}
 	if preserve {
-		p.Ann = append(p.Ann, annChoice{"session-cookie-preserve", []string{"true", "false"}}, annChoice{"session-cookie-dynamic", []string{"false"}})
+		p.Ann = append(p.Ann, annChoice{"session-cookie-preserve", []string{"true", "false"}}, annChoice{"session-cookie-dynamic", []string{"false"}},
+			annChoice{"session-cookie-value-strategy", []string{"pod-uid", "server-name"}})
+		p.Bundles = []annBundle{{Name: "cookie-pod-uid", Keys: []annChoice{{"affinity", []string{"cookie"}}, {"session-cookie-preserve", []string{"true"}},
+			{"session-cookie-dynamic", []string{"false"}}, {"session-cookie-value-strategy", []string{"pod-uid"}}}}}
+		p.BundlePct = 15
 	}
 	if bluegreen {
 		p.Ann = append(p.Ann, annChoice{"blue-green-deploy", []string{"group=blue=1,group=green=3", "group=blue=0,group=green=1"}})
@@ -70,8 +74,9 @@ func genDynHistory(t *rapid.T, p Profile, kinds []string, maxBatches int) HistCa
 		var ops []world.Op
 		for i := 0; i < nops; i++ {
 			if op, ok := g.genOp(kinds); ok {
-				if op.Op == "update" && op.Obj.Kind == world.KEndpoints {
-					g.ensurePods(op.Obj)
+				if op.Op != "delete" && op.Obj.Kind == world.KEndpoints {
+					// the pod of a new address exists before the address is published (most of the time)
+					ops = append(ops, g.ensurePods(op.Obj)...)
 				}
 				ops = append(ops, world.Op{Op: op.Op, Obj: op.Obj.Clone()})
 			}
@@ -84,9 +89,23 @@ func genDynHistory(t *rapid.T, p Profile, kinds []string, maxBatches int) HistCa
 	return c
 }
 
-// ensurePods is a no-op placeholder: endpoints may reference pods that do not
-// exist as objects (the controller then falls back to the target name).
-func (g *G) ensurePods(ep *world.Obj) {}
+// ensurePods creates the Pod objects of addresses that name a pod which does not exist yet.
+func (g *G) ensurePods(ep *world.Obj) []world.Op {
+	var ops []world.Op
+	for _, ss := range ep.Subsets {
+		for i, a := range append(append([]world.Addr{}, ss.Ready...), ss.NotReady...) {
+			if a.Pod == "" || g.W.Get(world.KPod, ep.NS+"/"+a.Pod) != nil || !g.chance("podexists", 80) {
+				continue
+			}
+			op := world.Op{Op: "create", Obj: podFor(ep.NS, ep.Name, a, i)}
+			if _, _, err := g.W.Apply(op); err != nil {
+				panic(err)
+			}
+			ops = append(ops, world.Op{Op: op.Op, Obj: op.Obj.Clone()})
+		}
+	}
+	return ops
+}
 
 // effective server state, comparable between the running process and a fresh load.
 func serverView(sv *simhap.Server) string {
